@@ -230,11 +230,12 @@ def run(run):
 
     # Datatype::from table
     ms = [m for m in T.find_matches(f_from["body"]) if any(q.get("k") == "Const" and q.get("lt") == "str" for a in m["arms"] for q in T.pat_alternatives(a["p"]))]
+    table_known = bool(ms)
     if not ms:
-        raise T.AnchorMissing("no match over string constants in Datatype::from")
+        run.undecided("R1", "from-table", "Datatype::from is not a match over string constants: the specifier table is not extracted, the rule instances that compare it with the regex are not decided", F.loc(f_from["body"]))
     table = {}
     has_panic_default = False
-    for arm in ms[0]["arms"]:
+    for arm in (ms[0]["arms"] if ms else []):
         body = T.peel(arm["b"])
         produces = None
         for n in T.walk(arm["b"]):
@@ -248,8 +249,8 @@ def run(run):
                 has_panic_default = panics
     # the scrutinee may be normalised before the table lookup (e.g. specifier.to_ascii_lowercase()): the EFFECTIVE table maps
     # a captured specifier s to table[norm(s)]
-    norm_calls = [n["n"] for n in T.walk(ms[0]["e"]) if T.is_call(n, ("to_ascii_lowercase", "to_lowercase", "to_ascii_uppercase", "to_uppercase"))]
-    for n in T.walk(f_from["body"]):
+    norm_calls = [n["n"] for n in T.walk(ms[0]["e"]) if T.is_call(n, ("to_ascii_lowercase", "to_lowercase", "to_ascii_uppercase", "to_uppercase"))] if ms else []
+    for n in (T.walk(f_from["body"]) if ms else []):
         if n.get("k") == "LetStmt" and "i" in n and any(y.get("k") in ("Var",) and y.get("id") in {b[0] for b in T.pat_bindings(n["p"])} for y in T.walk(ms[0]["e"])):
             norm_calls += [c["n"] for c in T.walk(n["i"]) if T.is_call(c, ("to_ascii_lowercase", "to_lowercase", "to_ascii_uppercase", "to_uppercase"))]
     if any("lower" in c for c in norm_calls):
@@ -260,12 +261,15 @@ def run(run):
         norm = lambda x: x
     eff = lambda x: table.get(norm(x))
     # the effective-table model is exact only if the table lookup is all the function does
-    other_control = [n for n in T.walk(f_from["body"]) if n.get("k") in ("If", "Return") or (n.get("k") == "Match" and n is not ms[0])]
-    model_exact = not other_control
+    other_control = [n for n in T.walk(f_from["body"]) if n.get("k") in ("If", "Return") or (n.get("k") == "Match" and ms and n is not ms[0])]
+    model_exact = not other_control and table_known
     # the floor counts the specifiers the table effectively serves, not the number of string literals (arms may be folded)
-    run.floor("specifiers served by Datatype::from", len({x for x in L1set if eff(x) is not None}), 40)
+    if table_known:
+        run.floor("specifiers served by Datatype::from", len({x for x in L1set if eff(x) is not None}), 40)
 
     def r1():
+        if not table_known:
+            return
         for s in sorted(L1set):
             key = "group1->from|%s" % s
             if eff(s) is None and not model_exact:
@@ -291,7 +295,7 @@ def run(run):
             panics = (not arms) or any(T.is_call(n) and "panic" in n["f"] for n in T.walk(arms[0]["b"]))
             run.check("R1", "size-table|%s" % v, not panics, "Datatype::%s can be produced by the parser but has no (non-panicking) size arm" % v, F.loc(f_size["body"]))
         # rejected set
-        rejected = rejected_set()
+        rejected, _ = rejected_set()
         mloc = T.find_matches(f_loc["body"], adt_suffix="Datatype")
         if not mloc:
             raise T.AnchorMissing("no match over Datatype in calculate_parameter_locations")
@@ -303,26 +307,40 @@ def run(run):
             run.check("R1", "location-table|%s" % v, bool(pushes) and not (panics and not pushes), "Datatype::%s is producible and not rejected, but calculate_parameter_locations has no handling arm (it panics)" % v, F.loc(f_loc["body"]))
 
     def rejected_set():
+        """data types V for which some `return Err(..)` of the parser is taken when the parsed data type is V: every condition
+        on the way to an Err return is evaluated (through local bindings, predicate helpers and `any(|..| pred)`) with all
+        Datatype-typed values specialised to V"""
+        from .lib import peval as PE
+        from .lib import bindsrc as B
         rej = set()
-        for c in F.closures(f_parse):
-            for m in T.find_matches(c["body"], adt_suffix="Datatype"):
-                # matches!(data_type, A | B | C) -> arms: pattern => true, _ => false
-                for arm in m["arms"]:
-                    b = T.peel(arm["b"])
-                    if b.get("k") == "Lit" and b.get("v") is True:
-                        names = T.pat_variant_names(arm["p"])
-                        if T.WILD not in names:
-                            # only the closure feeding `any` (the rejection test) has >1 names or is used by any()
-                            rej_candidate = names
-                            parent_any = any(T.is_call(n, "any") and any(T.peel(a).get("k") == "Closure" and T.peel(a)["d"] == c["path"] for a in n["a"]) for n in T.walk(f_parse["body"]))
-                            if parent_any:
-                                rej |= rej_candidate
-        return rej
+        bodies_ = [f_parse] + F.closures(f_parse)
+        roots = [b["body"] for b in bodies_]
+        errs = []
+        for b in bodies_:
+            for n, conds in T.paths_to(b["body"], lambda y: y.get("k") == "Return" and y.get("e") is not None and PE.result_kind(y["e"]) == "Err" and not y.get("x")):
+                errs.append((n, conds))
+        for v in DV:
+            def assume(n, v=v):
+                k = n.get("k")
+                ty = (F.ty(n) or "").replace("&", "").strip()
+                if ty.endswith("Datatype") and k in ("Var", "Upvar", "Deref", "Field"):
+                    return ("enum", v)
+                return None
+            spec = PE.Spec(F, assume=assume)
+            for n, conds in errs:
+                for cd in conds:
+                    if cd[0] != "if":
+                        continue
+                    for src, how in B.sources(F, roots, cd[1]):
+                        c = spec.cev(src, {})
+                        if c == ("bool", cd[2]):
+                            rej.add(v)
+        return rej, bool(errs)
 
     run.guarded("R1", r1)
 
     def r2():
-        rejected = rejected_set()
+        rejected, has_err = rejected_set()
         for v in ("Long", "LongLong", "LongDouble"):
             run.check("R2", "rejected|%s" % v, v in rejected, "format strings with %s conversions must be rejected (Err), found rejected set %s" % (v, sorted(rejected)), F.loc(f_parse["body"]))
         # the long forms of the C conversion grammar must reach a rejected data type: `L` + floating conversion is a long double,
@@ -343,18 +361,8 @@ def run(run):
                 run.undecided("R2", "long-form|%s" % sp, "Datatype::from does more than one table lookup; the effective mapping of `%s` is not modelled" % sp, F.loc(f_from["body"]))
                 continue
             run.check("R2", "long-form|%s" % sp, dt in rejected, "`%%%s` is a %s conversion and must be rejected; Datatype::from maps it to %s%s, which is accepted and sized as such (the variadic argument list is mis-parsed)" % (sp, cls, dt, " (after normalising the specifier to `%s`)" % norm(sp) if norm(sp) != sp else ""), F.loc(f_from["body"]))
-        # the rejection must lead to Err: the `if any(..) { return Err }`
-        sy = S.Sym(F)
-        term = sy.term(f_parse["body"])
-        ok = False
-        for x in S.subterms(term):
-            if isinstance(x, tuple) and x and x[0] == "ite":
-                c = x[1]
-                if any(is_call(y, "any") for y in S.subterms(c)) and not c[0] == "not":
-                    rets = [y for y in S.subterms(x[2]) if isinstance(y, tuple) and y and y[0] == "return"]
-                    if any(r[1][0] == "adt" and r[1][2] == "Err" for r in rets):
-                        ok = True
-        run.check("R2", "rejected|yields-Err", ok, "a format string containing a rejected data type must make parse_format_string_parameters return Err", F.loc(f_parse["body"]))
+        # the rejection leads to Err by construction of the rejected set (conditions of `return Err(..)` sites)
+        run.check("R2", "rejected|yields-Err", has_err and bool(rejected), "a format string containing a rejected data type must make parse_format_string_parameters return Err", F.loc(f_parse["body"]))
         # longest form wins: in priority order no earlier string is a proper prefix of a later one
         bad = []
         for i, a in enumerate(L1):
@@ -365,7 +373,7 @@ def run(run):
 
     run.guarded("R2", r2)
 
-    CONVS = sorted(table)
+    CONVS = sorted(table) if table_known else sorted(L1set)
 
     def params_of(s):
         """what the regex + consumer make of string s: list of captured group-1 strings (None if group unset)"""
@@ -405,26 +413,36 @@ def run(run):
     run.guarded("R3", r3)
 
     def r4():
-        found = False
-        for c in F.closures(f_parse):
-            sy = S.Sym(F)
-            term = sy.term(c["body"])
-            for x in S.subterms(term):
-                if isinstance(x, tuple) and x and x[0] == "ite":
-                    cond = x[1]
-                    if cond[0] == "match":
-                        pats = [p for p, g, b in cond[2] if b == ("lit", True)]
-                        if pats == ["Char"]:
-                            found = True
-                            tb = S.value(x[2])
-                            good = is_call(tb, "get_size_from_data_type") and any(a[0] == "adt" and a[2] == "Integer" for a in tb[2])
-                            run.check("R4", "char-sized-as-int", good, "a `%%c` argument is promoted to int: its size must be get_size_from_data_type(Integer); found %s" % fmt(tb), F.loc(c["body"]))
-        if not found:
-            # equivalent: Datatype::from maps c to Integer directly, or size table handles it
-            if table.get("c") == "Integer":
-                run.holds("R4", "char-sized-as-int", "`c` is mapped to Integer by Datatype::from")
-            else:
-                run.violated("R4", "char-sized-as-int", "no promotion of Char to the size of Integer found in parse_format_string_parameters", F.loc(f_parse["body"]))
+        from .lib import peval as PE
+        # which size is looked up when the parsed data type is Char? (specialisation; helper functions are followed)
+        hits = {"n": 0}
+
+        def assume(n):
+            k = n.get("k")
+            ty = (F.ty(n) or "").replace("&", "").strip()
+            if ty.endswith("Datatype") and k in ("Var", "Upvar", "Deref", "Field"):
+                hits["n"] += 1
+                return ("enum", "Char")
+            return None
+        spec = PE.Spec(F, assume=assume, follow_calls=True)
+        sized = []
+        for b in [f_parse] + F.closures(f_parse):
+            for x in spec.reach(b["body"], {}):
+                if T.is_call(x, "get_size_from_data_type") and len(x["a"]) == 2:
+                    sized.append((x, spec.cev(x["a"][1], {})))
+        site = F.loc(f_parse["body"])
+        as_int = [x for x, c in sized if c == ("enum", "Integer")]
+        as_char = [x for x, c in sized if c == ("enum", "Char")]
+        if table_known and table.get("c") == "Integer" and table.get("C", "Integer") == "Integer":
+            run.holds("R4", "char-sized-as-int", "`c` is mapped to Integer by Datatype::from")
+        elif as_char:
+            run.violated("R4", "char-sized-as-int", "a `%c` argument is promoted to int: its size must be get_size_from_data_type(Integer); for a Char the size of Char itself is looked up", F.loc(as_char[0]))
+        elif as_int:
+            run.holds("R4", "char-sized-as-int", "", F.loc(as_int[0]))
+        elif not sized:
+            run.violated("R4", "char-sized-as-int", "no promotion of Char to the size of Integer found in parse_format_string_parameters (no size lookup is reached for a Char)", site)
+        else:
+            run.undecided("R4", "char-sized-as-int", "size lookups with an argument that is not a constant data type", site)
 
     run.guarded("R4", r4)
 
